@@ -71,6 +71,32 @@ def _repr_evaluates_back(value, _seen=None):
     return all(_repr_evaluates_back(item, _seen) for item in value)
 
 
+def _mutable_parts(value, found=None):
+    """ The ids of the mutable builtin containers that make up the value
+    (itself included), however deep inside tuples and other containers. """
+    if found is None:
+        found = set()
+    kind = type(value)
+    if kind in (list, dict, set, bytearray):
+        if id(value) in found:
+            return found
+        found.add(id(value))
+    if kind in (list, tuple, set, frozenset):
+        for item in value:
+            _mutable_parts(item, found)
+    elif kind is dict:
+        for key, item in value.items():
+            _mutable_parts(key, found)
+            _mutable_parts(item, found)
+    return found
+
+
+#: The types whose repr is a call of their name (``set()``, ``range(0, 3)``):
+#: it evaluates back only where the name still means the type
+_NAMED_IN_THEIR_REPR = {'set': set, 'frozenset': frozenset, 'range': range,
+                        'bytearray': bytearray}
+
+
 def _short_repr(value, limit):
     """ The repr of the value if it is at most ``limit`` characters long, else
     None (also when it has no repr: an int too long to be turned into text). """
@@ -836,10 +862,12 @@ class Sandbox:
                         target):
         """ Turn the given strings into an actual function call string. """
         # A mutable object that is passed more than once must stay one object
+        # (also when it sits somewhere inside two of the arguments)
         given = list(args) + list(kwargs.values())
-        shared = {id(value) for value in given
-                  if isinstance(unwrap_value(value), (list, dict, set, bytearray))
-                  and sum(value is other for other in given) > 1}
+        parts = [_mutable_parts(unwrap_value(value)) for value in given]
+        shared = {id(value) for index, value in enumerate(given)
+                  if any(parts[index] & other for position, other in enumerate(parts)
+                         if position != index)}
         str_args = [arg_name if arg_name is not None else
                     self._make_temporary('arg', str(index), arg_value,
                                          id(arg_value) in shared)
@@ -897,7 +925,10 @@ class Sandbox:
         actual_value = unwrap_value(value)
         if not shared and _repr_evaluates_back(actual_value):
             short_repr = _short_repr(actual_value, self.MAXIMUM_TEMPORARY_LENGTH)
-            if short_repr is not None:
+            if short_repr is not None and not any(
+                    name + '(' in short_repr and self.data.get(name, kind) is not kind
+                    for name, kind in _NAMED_IN_THEIR_REPR.items()):
+                # (the student may have given one of those names another meaning)
                 return short_repr
         key = '_temporary_{}_{}'.format(category, name)
         if key in self.data:
